@@ -4,6 +4,7 @@ import (
 	"go/ast"
 	"go/token"
 	"go/types"
+	"golang.org/x/tools/go/cfg"
 	"strings"
 )
 
@@ -359,27 +360,7 @@ func runC11(c *Ctx) {
 			if !isLoop {
 				return true
 			}
-			keepTop, skipGuarded := false, true
-			for _, st := range loop.Body.List {
-				switch s := st.(type) {
-				case *ast.AssignStmt:
-					if call, isCall := s.Rhs[0].(*ast.CallExpr); isCall && builtinName(info, call) == "append" && len(call.Args) == 2 && appendsLoopVar(info, call.Args[1], loop) {
-						keepTop = true
-					}
-				case *ast.IfStmt:
-					hasContinue := false
-					for _, b := range s.Body.List {
-						if br, isBr := b.(*ast.BranchStmt); isBr && br.Tok == token.CONTINUE {
-							hasContinue = true
-						}
-					}
-					isCk := func(fn *types.Func, _ *ast.CallExpr) bool { return fn.Name() == "IsCheckpoint" }
-					if hasContinue && nodeHasCall(info, s.Cond, c.viaHelpers(isCk, 2)) == nil {
-						skipGuarded = false
-					}
-				}
-			}
-			ok = keepTop && skipGuarded
+			ok = keepsIffNotCheckpoint(c, fi, loop)
 			return true
 		})
 		// equivalent idiom: slices.DeleteFunc(<fresh copy>, <predicate reaching IsCheckpoint>)
@@ -933,4 +914,146 @@ func lenMinusConst(info *types.Info, body ast.Node, e ast.Expr, arr string, dept
 		}
 	}
 	return 0, 0, false
+}
+
+// eval3 evaluates a boolean expression with three values (1 true, 0 false, -1 unknown);
+// atom gives the value of the atoms it knows.
+func eval3(e ast.Expr, atom func(ast.Expr) int) int {
+	e = ast.Unparen(e)
+	if v := atom(e); v >= 0 {
+		return v
+	}
+	switch x := e.(type) {
+	case *ast.UnaryExpr:
+		if x.Op == token.NOT {
+			switch eval3(x.X, atom) {
+			case 1:
+				return 0
+			case 0:
+				return 1
+			}
+		}
+	case *ast.BinaryExpr:
+		a, b := eval3(x.X, atom), eval3(x.Y, atom)
+		switch x.Op {
+		case token.LAND:
+			if a == 0 || b == 0 {
+				return 0
+			}
+			if a == 1 && b == 1 {
+				return 1
+			}
+		case token.LOR:
+			if a == 1 || b == 1 {
+				return 1
+			}
+			if a == 0 && b == 0 {
+				return 0
+			}
+		}
+	}
+	return -1
+}
+
+// keepsIffNotCheckpoint decides on the CFG of one loop iteration that the element is appended
+// exactly when it is not a checkpoint file: under the assumption "it is a checkpoint" (type
+// assertion ok, IsCheckpoint() true) the append is unreachable before the next iteration; under
+// "IsCheckpoint() false" and under "assertion failed" it is reachable.
+func keepsIffNotCheckpoint(c *Ctx, fi *FuncInfo, loop *ast.RangeStmt) bool {
+	info := fi.Info()
+	f := newFlow(info, fi.Decl.Body)
+	isCkCall := func(e ast.Expr) bool {
+		call, ok := ast.Unparen(e).(*ast.CallExpr)
+		if !ok {
+			return false
+		}
+		fn := calleeOf(info, call)
+		return fn != nil && c.mayReach(fn, func(g *types.Func) bool { return g.Name() == "IsCheckpoint" }, 2)
+	}
+	// the `ok` results of type assertions in the loop
+	okVars := map[types.Object]bool{}
+	ast.Inspect(loop.Body, func(m ast.Node) bool {
+		as, ok := m.(*ast.AssignStmt)
+		if ok && len(as.Lhs) == 2 && len(as.Rhs) == 1 {
+			if _, isTA := ast.Unparen(as.Rhs[0]).(*ast.TypeAssertExpr); isTA {
+				if id, ok := as.Lhs[1].(*ast.Ident); ok {
+					okVars[info.ObjectOf(id)] = true
+				}
+			}
+		}
+		return true
+	})
+	isKeep := func(nd ast.Node) bool {
+		as, ok := nd.(*ast.AssignStmt)
+		if !ok || len(as.Rhs) != 1 {
+			return false
+		}
+		call, ok := as.Rhs[0].(*ast.CallExpr)
+		return ok && builtinName(info, call) == "append" && len(call.Args) == 2 && appendsLoopVar(info, call.Args[1], loop)
+	}
+	var starts []point
+	for _, b := range f.G.Blocks {
+		if b.Live && b.Kind == cfg.KindRangeBody && b.Stmt == ast.Stmt(loop) {
+			starts = append(starts, point{b, 0})
+		}
+	}
+	if len(starts) == 0 || len(f.find(isKeep)) == 0 {
+		return false
+	}
+	reachKeep := func(ckVal, okVal int) bool {
+		atom := func(e ast.Expr) int {
+			if isCkCall(e) {
+				return ckVal
+			}
+			if id, ok := e.(*ast.Ident); ok && okVars[info.ObjectOf(id)] {
+				return okVal
+			}
+			return -1
+		}
+		stop := func(b *cfg.Block, si int) bool {
+			cond, _, _ := condOf(b)
+			if cond == nil {
+				return false
+			}
+			switch eval3(cond, atom) {
+			case 1:
+				return si != 0 // condition true: the false edge is infeasible
+			case 0:
+				return si == 0
+			}
+			return false
+		}
+		// stay within the iteration: stop at the next evaluation of the loop header
+		found := false
+		seen := map[*cfg.Block]bool{}
+		var walk func(b *cfg.Block, i int)
+		walk = func(b *cfg.Block, i int) {
+			if found || (i == 0 && seen[b]) {
+				return
+			}
+			if i == 0 {
+				seen[b] = true
+			}
+			for j := i; j < len(b.Nodes); j++ {
+				if isKeep(b.Nodes[j]) {
+					found = true
+					return
+				}
+				if isReturn(b.Nodes[j]) {
+					return
+				}
+			}
+			for si, s := range b.Succs {
+				if stop(b, si) || (s.Kind == cfg.KindRangeLoop && s.Stmt == ast.Stmt(loop)) {
+					continue
+				}
+				walk(s, 0)
+			}
+		}
+		for _, st := range starts {
+			walk(st.b, st.i)
+		}
+		return found
+	}
+	return !reachKeep(1, 1) && reachKeep(0, 1) && reachKeep(-1, 0)
 }
